@@ -146,13 +146,17 @@ class InputFileRoundTrip(Contract):
     symbolic = False
     has_native = True
     props = ("C14",)
-    bounded_scope = "template forms (bool, integer, float incl. +-inf, string, choice, multi-choice, file, object, data, data-or-value, optional/disabled variants, range) x value corpus x {default options, update_enabled=False}; written, read back, values and enabled states compared; promote/demote of uids on a real workspace; file names with dots in the stem; values assigned to members of optional groups (switch optional or not, before or after its members); values changed through set_data_value or by assigning the data dictionary back (with and without validation; data-or-value forms switched between number and channel)"
+    bounded_scope = "template forms (bool, integer, float incl. +-inf, string, choice, object, data, data-or-value, optional/disabled variants; in a scenario of their own: multi-choice, file, group, drillhole-group data with the template defaults and optional variants, range with and without complement) x value corpus x {default options, update_enabled=False}; written, read back, values and enabled states compared; promote/demote of uids on a real workspace; file names with dots in the stem; values assigned to members of optional groups (switch optional or not, before or after its members); values changed through set_data_value or by assigning the data dictionary back (with and without validation; data-or-value forms switched between number and channel)"
 
     def native_cases(self, tier, rng):
         for opts in ({}, {"update_enabled": False}):
             for touch_data in (False, True):
                 for name in ("t.ui.json", "inversion_v1.2.ui.json"):
                     yield {"options": opts, "touch_data": touch_data, "name": name}
+        # the remaining template forms: multi-choice, file, group, drillhole-group data (template defaults and optional variants), range
+        for opts in ({}, {"update_enabled": False}):
+            for validate in (True, False):
+                yield {"kind": "more-forms", "options": opts, "validate": validate, "name": "more.ui.json"}
         for how in ("set_data_value", "data-assigned-back"):
             for validate in (True, False):
                 yield {"kind": "edits", "how": how, "validate": validate, "name": "edits.ui.json"}
@@ -167,6 +171,84 @@ class InputFileRoundTrip(Contract):
                 # disabled parameters and read back as None by the format's own rule
                 for assign_switch in (True,):
                     yield {"kind": "groups", "switch_optional": switch_optional, "switch_first": switch_first, "assign_switch": assign_switch, "name": "groups v2.1.ui.json"}
+
+    def _more_forms(self, case):
+        """multi-choice, file, group, drillhole-group data and range forms straight from the templates"""
+        from geoh5py.groups import ContainerGroup, DrillholeGroup
+        from geoh5py.objects import Drillhole, Points
+        from geoh5py.ui_json import InputFile, templates
+        from geoh5py.ui_json.constants import default_ui_json
+        from geoh5py.workspace import Workspace
+
+        d = tempfile.mkdtemp()
+        try:
+            path = os.path.join(d, "w.geoh5")
+            side = os.path.join(d, "side.txt")
+            open(side, "w").write("x")
+            with Workspace.create(path) as ws:
+                pts = Points.create(ws, vertices=np.zeros((3, 3)), name="pts")
+                dat = pts.add_data({"d": {"values": np.arange(3.0)}})
+                grp = ContainerGroup.create(ws, name="holder")
+                dg = DrillholeGroup.create(ws, name="campaign")
+                hole = Drillhole.create(ws, parent=dg, name="h1", collar=[0.0, 0.0, 0.0])
+                hole.add_data({"Au": {"depth": np.arange(4.0), "values": np.arange(4.0)}, "Cu": {"depth": np.arange(4.0), "values": np.arange(4.0) * 2}})
+                ui = dict(default_ui_json)
+                ui["geoh5"] = ws
+                ui["multi"] = templates.choice_string_parameter(choice_list=("a", "b", "c"), multi_select=True, value=["a", "c"])
+                ui["file"] = templates.file_parameter(file_description=("text",), file_type=("txt",), value=side)
+                ui["group"] = templates.group_parameter(value=str(grp.uid))
+                ui["group_off"] = templates.group_parameter(optional="disabled")
+                ui["dh"] = templates.drillhole_group_data(value=["Au", "Cu"], group_value=dg.uid)
+                ui["dh_opt"] = templates.drillhole_group_data(value=["Cu"], group_value=dg.uid, optional="enabled")
+                ui["dh_off"] = templates.drillhole_group_data(group_value=dg.uid, optional="disabled")
+                ui["o"] = templates.object_parameter(value=str(pts.uid))
+                ui["range"] = templates.range_label_template(parent="o", property_=str(dat.uid), value=[0.5, 1.5])
+                ui["range_inv"] = templates.range_label_template(parent="o", property_=str(dat.uid), value=[0.0, 2.0], allow_complement=True, is_complement=True, optional="enabled")
+                try:
+                    ifile = InputFile(ui_json=ui, validate=case["validate"], validation_options=dict(case["options"]) or None)
+                    before = {k: ({m: v[m] for m in ("value", "groupValue", "property", "isComplement", "enabled") if m in v}) for k, v in ifile.ui_json.items() if isinstance(v, dict)}
+                    ifile.write_ui_json(name=case["name"], path=d)
+                except Exception as exc:
+                    return f"forms built from the templates could not be written: {type(exc).__name__}: {exc} ({case})"
+            try:
+                back = InputFile.read_ui_json(os.path.join(d, case["name"]), validate=case["validate"])
+            except Exception as exc:
+                return f"reading back the file that was just written fails: {type(exc).__name__}: {exc} ({case})"
+            try:
+                def plain(v):
+                    if hasattr(v, "uid"):
+                        v = v.uid
+                    if isinstance(v, uuid.UUID):
+                        return str(v)
+                    if isinstance(v, str):
+                        try:
+                            return str(uuid.UUID(v)) if len(v) >= 32 else v
+                        except ValueError:
+                            return v
+                    if isinstance(v, (list, tuple)):
+                        return [plain(x) for x in v]
+                    return v
+
+                for k, members in before.items():
+                    for m, v in members.items():
+                        v2 = back.ui_json[k].get(m)
+                        if m == "enabled":
+                            if not case["options"] and members.get("value") is None:
+                                continue  # default options tie "enabled" to "has a value"
+                            if bool(v) != bool(v2):
+                                return f"enabled state of '{k}': {v} before writing, {v2} after reading back ({case})"
+                            continue
+                        if plain(v) != plain(v2) and not (v is None and v2 in (None, "")):
+                            return f"'{k}'.{m}: wrote {plain(v)!r}, read back {plain(v2)!r} ({case})"
+            finally:
+                if back.geoh5 is not None:
+                    try:
+                        back.geoh5.close()
+                    except Exception:
+                        pass
+        finally:
+            shutil.rmtree(d, ignore_errors=True)
+        return None
 
     def _property_groups(self, case):
         """data forms that select a property group of their object: several objects carry groups (in any order of
@@ -344,6 +426,8 @@ class InputFileRoundTrip(Contract):
             return self._edits(case)
         if case.get("kind") == "property-groups":
             return self._property_groups(case)
+        if case.get("kind") == "more-forms":
+            return self._more_forms(case)
         from geoh5py.objects import Points
         from geoh5py.ui_json import InputFile, templates
         from geoh5py.ui_json.constants import default_ui_json
